@@ -1964,7 +1964,7 @@ meta:
 				start = l->start + len + 1;
 				len = l->start + l->len - start;
 
-				if (char_is_line_ending(source[start + len])) {
+				if (len && char_is_line_ending(source[start + len - 1])) {
 					len--;
 				}
 
